@@ -8,13 +8,13 @@ RULE = ("case = a random prefix of 0-15 C12 operations over 1-3 evbuffers (each 
         "model's full effect (size-returning ops: exactly the reported count); then 20 further C12-checked ops, free, allocation census. "
         "evaluations = cases; non-trivial/distinct = fault points that fired (hash of history + n)")
 
-STEPS = [dict(flavor="asan", harness="h_evbuf", args=["--mode", "allocfail"], cases=dict(quick=5000, thorough=300000))]
+STEPS = [dict(flavor="asan", harness="h_evbuf", args=["--mode", "allocfail"], cases=dict(quick=3000, thorough=100000), timeout=dict(quick=900, thorough=7200))]
 REQUIRED = ["fault_points", "faults_reported_as_failure", "dry_runs", "cb_invocations", "enomem_add", "enomem_prepend", "enomem_add_printf",
             "enomem_pullup", "enomem_expand", "enomem_reserve_commit", "enomem_add_iovec", "enomem_readln", "enomem_add_reference",
             "enomem_add_cb", "op_remove_buffer", "op_add_buffer_reference"]
 
 REG = dict(category="fault_enumeration",
-           text="Fault enumeration: for ~3e3 (quick) / ~2e5 (thorough) (history, operation) pairs every allocation the operation performs is made "
+           text="Fault enumeration: for ~3e3 (quick) / ~1e5 (thorough) (history, operation) pairs every allocation the operation performs is made "
                 "to fail in turn (exhaustive over n for that operation on that history); atomicity, full-effect-on-success, no leak (allocator census), "
                 "and 20 further model-checked operations, under ASan+UBSan. Histories are sampled, not enumerated.",
            note="trusts the byte-string model and snapshot in harness/h_evbuf.c and the memfault allocator (harness/common/memfault.c); only "
@@ -23,5 +23,5 @@ REG = dict(category="fault_enumeration",
 
 
 def run(tier, seed):
-    return generic.run_spec("C14", tier, seed, STEPS, RULE, required=REQUIRED, level="fault_enumeration" if False else "exploration",
+    return generic.run_spec("C14", tier, seed, STEPS, RULE, required=REQUIRED,
                             assumptions=["only library allocations through event_set_mem_functions are failed", "single-threaded"])
